@@ -1,6 +1,121 @@
-// Extension commands for area "aws" (owned by the builder of that area).
+// Extension commands for area "aws" (property C20): the AWS IoT builder glue of gneiss-mqtt-aws,
+// through its add-only hooks `gneiss_mqtt_aws::verif` and `gneiss_mqtt::verif::options`.
 // Return None when the command is not one of this module's.
-#[allow(unused_variables)]
+//
+//   AWSENC x<bytes>          -> ok x<urlencoding::encode_binary> (x<urlencoding::encode> | - when not UTF-8)
+//   AWSENCTABLE              -> ok e0,e1,...,e255   e_b = hex token of the encoding of the single byte b
+//                               (encode_binary; for b < 128 also checked equal to encode(&str), else `bad`)
+//   AWSAUTH <auth6>          -> ok x<final username> (x<password>|-) [x<param>,...]
+//        auth6 = name sig key value user pass, each `-` (absent) or x<hex>; signed authorizer iff sig is present
+//   AWSCONN NOAUTH <connect options>        -> ok <final connect options>
+//   AWSCONN AUTH <auth6> <connect options>  -> ok <final connect options>
+//        connect options text as in gneiss_mqtt::verif::options (keepalive rejoin clientid username password sei
+//        rri rpi recvmax tam maxpkt willdelay up NOWILL|WILL <publish>)
+//   AWSDEF <client options 11 tokens>       -> ok <factory token of the input> <client options after apply_aws_defaults>
+//   AWSCODEFAULT             -> ok <ConnectOptions::builder().build()>       (what build_tokio / build_threaded use when the
+//   AWSCLDEFAULT             -> ok <MqttClientOptions::builder().build()>     user registered no options with the AWS builder)
+// Every call runs under catch_unwind: a panic is answered `panic`.
+
+use gneiss_mqtt::verif::{options, text};
+use gneiss_mqtt_aws::verif as aws;
+
+fn opt_string(tok: &str) -> Result<Option<String>, String> {
+    if tok == "-" { return Ok(None); }
+    String::from_utf8(text::unhex(tok)?).map(Some).map_err(|_| "invalid utf8".to_string())
+}
+
+fn opt_bytes(tok: &str) -> Result<Option<Vec<u8>>, String> {
+    if tok == "-" { Ok(None) } else { Ok(Some(text::unhex(tok)?)) }
+}
+
+struct Auth { name: Option<String>, sig: Option<String>, key: Option<String>, value: Option<String>, user: Option<String>, pass: Option<Vec<u8>> }
+
+fn parse_auth(toks: &[&str]) -> Result<Auth, String> {
+    if toks.len() != 6 { return Err("auth: need 6 tokens".to_string()); }
+    let a = Auth { name: opt_string(toks[0])?, sig: opt_string(toks[1])?, key: opt_string(toks[2])?, value: opt_string(toks[3])?,
+                   user: opt_string(toks[4])?, pass: opt_bytes(toks[5])? };
+    if a.sig.is_some() != a.key.is_some() || a.sig.is_some() != a.value.is_some() {
+        return Err("auth: signature, token key and token value go together".to_string());
+    }
+    Ok(a)
+}
+
+fn input_of(a: &Auth) -> aws::CustomAuthInput<'_> {
+    aws::CustomAuthInput {
+        authorizer_name: a.name.as_deref(),
+        signed: match (&a.sig, &a.key, &a.value) { (Some(s), Some(k), Some(v)) => Some((s.as_str(), k.as_str(), v.as_str())), _ => None },
+        username: a.user.as_deref(),
+        password: a.pass.as_deref(),
+    }
+}
+
+fn run(toks: &[&str]) -> Result<String, String> {
+    match toks[0] {
+        "AWSENC" => {
+            let data = text::unhex(toks.get(1).ok_or("short")?)?;
+            let bin = aws::url_encode_binary(&data);
+            let s = match std::str::from_utf8(&data) { Ok(s) => text::hex(aws::url_encode(s).as_bytes()), Err(_) => "-".to_string() };
+            Ok(format!("ok {} {}", text::hex(bin.as_bytes()), s))
+        }
+        "AWSENCTABLE" => {
+            let mut items = Vec::with_capacity(256);
+            for b in 0..=255u8 {
+                let bin = aws::url_encode_binary(&[b]);
+                if b < 128 {
+                    let one = [b];
+                    let s = std::str::from_utf8(&one).map_err(|_| "ascii".to_string())?;
+                    if aws::url_encode(s) != bin { return Err(format!("encode and encode_binary differ on byte {}", b)); }
+                }
+                items.push(text::hex(bin.as_bytes()));
+            }
+            Ok(format!("ok {}", items.join(",")))
+        }
+        "AWSAUTH" => {
+            let a = parse_auth(&toks[1..])?;
+            let input = input_of(&a);
+            let built = aws::build_custom_auth(&input);
+            let params: Vec<String> = aws::query_params(&input).iter().map(|p| text::hex(p.as_bytes())).collect();
+            let pass = match aws::custom_auth_password(&built) { Some(p) => text::hex(p), None => "-".to_string() };
+            Ok(format!("ok {} {} [{}]", text::hex(aws::custom_auth_username(&built).as_bytes()), pass, params.join(",")))
+        }
+        "AWSCONN" => {
+            let (auth, rest) = match toks.get(1) {
+                Some(&"NOAUTH") => (None, &toks[2..]),
+                Some(&"AUTH") => {
+                    if toks.len() < 8 { return Err("AWSCONN: short".to_string()); }
+                    let a = parse_auth(&toks[2..8])?;
+                    (Some(aws::build_custom_auth(&input_of(&a))), &toks[8..])
+                }
+                _ => { return Err("AWSCONN: NOAUTH or AUTH".to_string()); }
+            };
+            let user = options::connect_options_from_text(rest)?;
+            match aws::final_connect_options(auth, user) {
+                Ok(fin) => Ok(format!("ok {}", options::connect_options_to_text(&fin))),
+                Err(e) => Ok(format!("err:{}", text::error_kind(&e))),
+            }
+        }
+        "AWSDEF" => {
+            let user = options::client_options_from_text(&toks[1..])?;
+            let token = options::factory_token(&user);
+            let fin = aws::aws_defaults(user);
+            Ok(format!("ok {} {}", token, options::client_options_to_text(&fin)))
+        }
+        "AWSCODEFAULT" => Ok(format!("ok {}", options::connect_options_to_text(&gneiss_mqtt::client::config::ConnectOptions::builder().build()))),
+        "AWSCLDEFAULT" => Ok(format!("ok {}", options::client_options_to_text(&gneiss_mqtt::client::config::MqttClientOptions::builder().build()))),
+        _ => Err("internal".to_string()),
+    }
+}
+
 pub fn handle(toks: &[&str]) -> Option<Result<String, String>> {
-    None
+    match toks[0] {
+        "AWSENC" | "AWSENCTABLE" | "AWSAUTH" | "AWSCONN" | "AWSDEF" | "AWSCODEFAULT" | "AWSCLDEFAULT" => {
+            let owned: Vec<String> = toks.iter().map(|t| t.to_string()).collect();
+            let r = std::panic::catch_unwind(move || {
+                let refs: Vec<&str> = owned.iter().map(|s| s.as_str()).collect();
+                run(&refs)
+            });
+            Some(match r { Ok(r) => r, Err(_) => Ok("panic".to_string()) })
+        }
+        _ => None,
+    }
 }
